@@ -142,12 +142,15 @@ def template(body, auto=False):
     for n in walk(body):
         if n.get("k") in ("extends", "include", "import", "fromimport"):
             e = n["e"]
-            if e["k"] == "const" and e["v"]["t"] == "str":
-                refs.add(seg_text(e["v"]["s"]))
-            elif e["k"] == "list" and all(x["k"] == "const" and x["v"]["t"] == "str" for x in e["items"]):
-                refs.update(seg_text(x["v"]["s"]) for x in e["items"])
-            else:
-                refs.add("?")
+            def targets(e):
+                if e["k"] == "const" and e["v"]["t"] == "str":
+                    return {seg_text(e["v"]["s"])}
+                if e["k"] == "list" and all(x["k"] == "const" and x["v"]["t"] == "str" for x in e["items"]):
+                    return {seg_text(x["v"]["s"]) for x in e["items"]}
+                if e["k"] == "cond":
+                    return targets(e["a"]) | (targets(e["b"]) if "b" in e else {"?"})
+                return {"?"}
+            refs |= targets(e)
     return {"body": body, "auto": auto, "blocks": collect_blocks(body), "pre": pre, "names": names, "refs": sorted(refs)}
 
 
@@ -474,6 +477,7 @@ def make_case(cid, tpls, main, datas, objs=None, undefined="default", globals_=N
     case = {"id": cid, "tpls": tpls, "main": main, "datas": list(datas), "objs": objs or {},
             "globals": dict(GLOBALS, **(globals_ or {})),
             "cfg": {"undefined": undefined, "predeclare": flags.get("predeclare", True), "all_auto": all(autos) and not has_ae, "none_auto": not any(autos) and not has_ae},
+            **({"tglobals": flags["tglobals"]} if flags.get("tglobals") else {}),
             "marks_safe": marks or any(v.get("m") for d in datas for v in walk(d) if isinstance(v, dict) and v.get("t") == "str"),
             "neutral": flags.get("neutral", False)}
     return case
